@@ -70,6 +70,11 @@ def exec_with(I, node, env, is_async):
 def run_cm(I, cm, target, env, body, is_async):
     if isinstance(cm, GeneratorCM):
         return run_generator_cm(I, cm, target, env, body)
+    if isinstance(cm, contextlib.nullcontext):
+        if target is not None:
+            I.assign_target(target, cm.enter_result, env)
+        body()
+        return
     if isinstance(cm, contextlib.suppress):
         try:
             body()
